@@ -82,6 +82,7 @@ type vxOpenFile struct {
 	path   string
 	flags  int
 	closed bool
+	pos    int64 // the descriptor's own file position (lseek/read; pread and pwrite do not use it)
 }
 
 type vxFS struct {
@@ -909,6 +910,61 @@ func vxstub_os_File_ReadAt(f *os.File, b []byte, off int64) (int, error) {
 		fs.log[i].err = io.EOF
 		return n, io.EOF
 	}
+	return n, nil
+}
+
+// lseek(2) + read(2): positional state shared by everybody who uses the descriptor
+func vxstub_os_File_Seek(f *os.File, off int64, whence int) (int64, error) {
+	fs := vxfs
+	h := fs.handle(f)
+	if h == nil {
+		fs.begin(vxFSCall{op: "seek", path: "?", err: vxErrInvalid})
+		return 0, vxErrInvalid
+	}
+	i := fs.begin(vxFSCall{op: "seek", path: h.path, a: off, b: int64(whence)})
+	if h.closed {
+		return 0, fs.fail(i, &os.PathError{Op: "seek", Path: h.path, Err: vxErrClosed})
+	}
+	switch whence {
+	case io.SeekCurrent:
+		off += h.pos
+	case io.SeekEnd:
+		off += int64(len(h.in.data))
+	}
+	if off < 0 {
+		return 0, fs.fail(i, vxPathErr("seek", h.path, vxEINVAL))
+	}
+	h.pos = off
+	return off, nil
+}
+
+func vxstub_os_File_Read(f *os.File, b []byte) (int, error) {
+	defer vxLibWrite(b)
+	fs := vxfs
+	h := fs.handle(f)
+	if h == nil {
+		fs.begin(vxFSCall{op: "read", path: "?", err: vxErrInvalid})
+		return 0, vxErrInvalid
+	}
+	i := fs.begin(vxFSCall{op: "read", path: h.path, a: h.pos, b: int64(len(b))})
+	if h.closed {
+		return 0, fs.fail(i, &os.PathError{Op: "read", Path: h.path, Err: vxErrClosed})
+	}
+	if e, ff := fs.fault(i); ff {
+		return 0, fs.fail(i, vxPathErr("read", h.path, e))
+	}
+	if h.in.kind == vxKDir {
+		return 0, fs.fail(i, vxPathErr("read", h.path, vxEISDIR))
+	}
+	if len(b) == 0 {
+		return 0, nil
+	}
+	if h.pos >= int64(len(h.in.data)) {
+		fs.log[i].err = io.EOF
+		return 0, io.EOF
+	}
+	n := copy(b, h.in.data[int(h.pos):])
+	h.pos += int64(n)
 	return n, nil
 }
 
